@@ -281,7 +281,42 @@ def run(chk):
         r2.require(len(uses) == 1 and not plain_div, f"{base.key}.{name}|safe", m.where(), f"BaselineMetrics.{name} must be computed through _safe_divide (undefined rather than a number when the denominator is not safely positive)")
 
     # ------------------------------------------------------------------ R16.3
+    check_poor_fit_gates(chk, r3)
+
+    # ------------------------------------------------------------------ R16.4
     hm = chk.repo.cls(*HOURLY_MODEL)
+    shapes = []
+    for nm in ("_fit", "_adaptive_fit"):
+        f = method(chk, hm, nm)
+        cfg = CFG(f.node)
+        rd = ReachingDefs(f.node, cfg)
+        bm_st = [s for s in cfg.stmts() if isinstance(s, ast.Assign) and unparse(s.targets[0]) == "self.baseline_metrics"]
+        if len(bm_st) != 1 or not isinstance(bm_st[0].value, ast.Call) or unparse(bm_st[0].value.func) != "BaselineMetrics":
+            r4.require(False, f"{f.key}|baseline-metrics-assigned", f.where(), f"{nm} must assign self.baseline_metrics = BaselineMetrics(...) exactly once")
+            continue
+        st = bm_st[0]
+        dfarg = kwarg(st.value, "df")
+        nparg = kwarg(st.value, "num_model_params")
+        sl = backward_slice_exprs(rd, st, dfarg, 4)
+        txt = " | ".join(unparse(x) for x in sl)
+        from_predict = any(isinstance(x, ast.Call) and unparse(x.func) == "self._predict" and x.args and unparse(x.args[0]) == f.params[1] for e in sl for x in ast.walk(e))
+        mask_ok = isinstance(dfarg, ast.Subscript) and isinstance(dfarg.slice, ast.UnaryOp) and isinstance(dfarg.slice.op, ast.Invert)
+        interp = ".any(axis=1)" in txt and "startswith('interpolated_')" in txt
+        r4.require(from_predict, f"{f.key}|metrics-from-predict(baseline)", f.where(st), f"{nm}: baseline metrics must be computed on self._predict({f.params[1]}, ...)")
+        r4.require(mask_ok and interp, f"{f.key}|non-interpolated-rows", f.where(st), f"{nm}: baseline metrics must be restricted to rows where no interpolated_* flag is set (df.loc[~interpolated])")
+        npsl = " | ".join(unparse(x) for x in backward_slice_exprs(rd, st, nparg, 3)) if nparg is not None else ""
+        r4.require("np.count_nonzero(self._model.coef_)" in npsl and "np.count_nonzero(self._model.intercept_)" in npsl, f"{f.key}|num-params", f.where(st),
+                   f"{nm}: num_model_params must count the non-zero coefficients and intercepts of the fitted model")
+        shapes.append((unparse(dfarg), npsl))
+    r4.require(len(shapes) == 2 and shapes[0] == shapes[1], "siblings|HourlyModel._fit~_adaptive_fit", "hourly/model.py", f"_fit and _adaptive_fit compute the baseline metrics differently: {shapes}")
+
+
+def check_poor_fit_gates(chk, r3):
+    """Truth tables of the poor-fit gates (shared by C16/R16.3 and C04/R04.5): the hourly model is acceptable iff
+    (cvrmse_adj is defined and below its threshold) or (pnrmse_adj is defined and below its threshold) — an undefined metric never
+    counts in the model's favour; the daily/billing model is disqualified iff CVRMSE > threshold."""
+    hm = chk.repo.cls(*HOURLY_MODEL)
+    dm = chk.repo.cls(*DAILY_MODEL)
     acc = method(chk, hm, "_model_fit_is_acceptable")
     cfg = CFG(acc.node)
     rd = ReachingDefs(acc.node, cfg)
@@ -352,31 +387,6 @@ def run(chk):
     r3.require(ok, f"{dfit.key}|disqualify-iff-cvrmse>threshold", dfit.where(), f"DailyModel.fit must disqualify exactly when error['CVRMSE'] > settings.cvrmse_threshold; found {found}")
     r3.inst(f"{dfit.key}|billing-inherits")
 
-    # ------------------------------------------------------------------ R16.4
-    shapes = []
-    for nm in ("_fit", "_adaptive_fit"):
-        f = method(chk, hm, nm)
-        cfg = CFG(f.node)
-        rd = ReachingDefs(f.node, cfg)
-        bm_st = [s for s in cfg.stmts() if isinstance(s, ast.Assign) and unparse(s.targets[0]) == "self.baseline_metrics"]
-        if len(bm_st) != 1 or not isinstance(bm_st[0].value, ast.Call) or unparse(bm_st[0].value.func) != "BaselineMetrics":
-            r4.require(False, f"{f.key}|baseline-metrics-assigned", f.where(), f"{nm} must assign self.baseline_metrics = BaselineMetrics(...) exactly once")
-            continue
-        st = bm_st[0]
-        dfarg = kwarg(st.value, "df")
-        nparg = kwarg(st.value, "num_model_params")
-        sl = backward_slice_exprs(rd, st, dfarg, 4)
-        txt = " | ".join(unparse(x) for x in sl)
-        from_predict = any(isinstance(x, ast.Call) and unparse(x.func) == "self._predict" and x.args and unparse(x.args[0]) == f.params[1] for e in sl for x in ast.walk(e))
-        mask_ok = isinstance(dfarg, ast.Subscript) and isinstance(dfarg.slice, ast.UnaryOp) and isinstance(dfarg.slice.op, ast.Invert)
-        interp = ".any(axis=1)" in txt and "startswith('interpolated_')" in txt
-        r4.require(from_predict, f"{f.key}|metrics-from-predict(baseline)", f.where(st), f"{nm}: baseline metrics must be computed on self._predict({f.params[1]}, ...)")
-        r4.require(mask_ok and interp, f"{f.key}|non-interpolated-rows", f.where(st), f"{nm}: baseline metrics must be restricted to rows where no interpolated_* flag is set (df.loc[~interpolated])")
-        npsl = " | ".join(unparse(x) for x in backward_slice_exprs(rd, st, nparg, 3)) if nparg is not None else ""
-        r4.require("np.count_nonzero(self._model.coef_)" in npsl and "np.count_nonzero(self._model.intercept_)" in npsl, f"{f.key}|num-params", f.where(st),
-                   f"{nm}: num_model_params must count the non-zero coefficients and intercepts of the fitted model")
-        shapes.append((unparse(dfarg), npsl))
-    r4.require(len(shapes) == 2 and shapes[0] == shapes[1], "siblings|HourlyModel._fit~_adaptive_fit", "hourly/model.py", f"_fit and _adaptive_fit compute the baseline metrics differently: {shapes}")
 
 
 def _falls_through(cfg: CFG, reach, true_rets) -> bool:
